@@ -667,8 +667,11 @@ def rule_f_inner(res: Results, idx: Index, m: Module) -> None:
                 res.violation("R-C02f", f"{OPT}:{h.node.lineno}", key, f"{hname}() can return a match without {alt}() having held: the rewrite it licenses is no longer an identity", h.qualname)
         # the op-type test of the matched producer
         sig = [n for n in walk_no_nested(h.node) if isinstance(n, ast.Compare) and isinstance(n.left, ast.Attribute) and n.left.attr == "op_type" and isinstance(n.comparators[0], ast.Constant)]
+        sig2 = [n for n in walk_no_nested(h.node) if isinstance(n, ast.Call) and _last(call_name(n)) == "_is_standard_onnx_node" and len(n.args) == 2 and isinstance(n.args[1], ast.Constant)]
         key = _key(h, "requires::op_type")
-        if sig:
+        if sig2:
+            res.ok("R-C02f", f"{OPT}:{sig2[0].lineno}", key, f"matched producer is tested to be standard-domain {sig2[0].args[1].value!r}", h.qualname)
+        elif sig:
             res.ok("R-C02f", f"{OPT}:{sig[0].lineno}", key, f"matched producer is tested to be {sig[0].comparators[0].value!r}", h.qualname)
         else:
             res.violation("R-C02f", f"{OPT}:{h.node.lineno}", key, f"{hname}() no longer tests the operator type of the matched producer", h.qualname)
@@ -787,6 +790,7 @@ def run(res: Results, idx: Index, tier: str) -> None:
     rule_k(res, idx, m)
     rule_l(res, idx, m)
     rule_m(res, idx, m)
+    rule_n(res, idx, m)
 
 
 # ---------------------------------------------------------------------------------------------- R-C02k
@@ -1091,3 +1095,42 @@ def rule_m(res: Results, idx: Index, m: Module) -> None:
 def _nth_call(fi: FuncInfo, c: ast.AST) -> int:
     calls = [x for x in walk_no_nested(fi.node) if isinstance(x, ast.Call) and _last(call_name(x)) == "_is_first_input_passthrough"]
     return next(i for i, x in enumerate(calls) if x is c)
+
+
+# ---------------------------------------------------------------------------------------------- R-C02n
+def rule_n(res: Results, idx: Index, m: Module) -> None:
+    """The call node of an @onnx_function carries the function's name as op_type and lives in a custom domain; users name
+    their blocks freely (`Sigmoid`, `Dropout`, `Add` …).  A rewrite that selects a node by `n.op_type == "<Op>"` alone
+    treats such a call node as the standard operator (a block named `Add` that multiplies matrices had its surrounding
+    Transposes folded away).  Every test of a node against a literal operator name in the optimizer must be
+    domain-qualified: `_is_standard_onnx_node(n, "<Op>")`, or a comparison accompanied by a domain test on the same node."""
+    res.rule("R-C02n", "rewrites match standard operators by name AND default domain", floor=30)
+    helper = m.funcs.get("_is_standard_onnx_node")
+    if helper is None or not any(isinstance(x, ast.Constant) and x.value == "domain" for x in ast.walk(helper.node)) and not any(isinstance(x, ast.Attribute) and x.attr == "domain" for x in ast.walk(helper.node)):
+        raise AnalysisError("_is_standard_onnx_node no longer exists or no longer tests the node's domain")
+    n = 0
+    for fi in m.funcs.values():
+        if fi is helper:
+            continue
+        k = 0
+        for c in walk_no_nested(fi.node):
+            if isinstance(c, ast.Call) and _last(call_name(c)) == "_is_standard_onnx_node" and len(c.args) == 2 and isinstance(c.args[1], ast.Constant):
+                n += 1
+                k += 1
+                res.ok("R-C02n", f"{OPT}:{c.lineno}", _key(fi, f"op-name-test::{src(c.args[0], 20)}::{c.args[1].value}#{k}"), "name and default domain are tested together", fi.qualname)
+                continue
+            if not (isinstance(c, ast.Compare) and isinstance(c.left, ast.Attribute) and c.left.attr == "op_type" and isinstance(c.left.value, ast.Name) and len(c.ops) == 1
+                    and isinstance(c.comparators[0], ast.Constant) and isinstance(c.comparators[0].value, str)):
+                continue
+            nm, op = c.left.value.id, c.comparators[0].value
+            n += 1
+            k += 1
+            key = _key(fi, f"op-name-test::{nm}::{op}#{k}")
+            site = f"{OPT}:{c.lineno}"
+            dom = [x for x in walk_no_nested(fi.node) if (isinstance(x, ast.Attribute) and x.attr == "domain" and isinstance(x.value, ast.Name) and x.value.id == nm)
+                   or (isinstance(x, ast.Call) and _last(call_name(x)) == "getattr" and len(x.args) >= 2 and isinstance(x.args[0], ast.Name) and x.args[0].id == nm and isinstance(x.args[1], ast.Constant) and x.args[1].value == "domain")]
+            if dom:
+                res.ok("R-C02n", site, key, f"`{nm}` is also tested for the default domain", fi.qualname)
+            else:
+                res.violation("R-C02n", site, key, f"`{src(c, 50)}` selects the node by name only: the call node of a user's @onnx_function named `{op}` (custom domain) is rewritten as if it were ONNX {op}", fi.qualname)
+    res.analysed["op_name_tests"] = n
